@@ -8,6 +8,7 @@ from ..core.cfg import CFG
 from ..core.repo import (AnalysisError, Repo, call_name, calls_in, definitions, dotted, is_const,
                          kwarg, names_in, unparse, walk_no_nested_defs)
 from ..domains.algnf import NotArithmetic, Rat, from_ast
+from ..domains.gramschmidt import GramSchmidt
 from .c16 import ExpArg
 
 OMD = "quantem.diffractive_imaging.object_models"
@@ -152,53 +153,27 @@ def run(check, repo: Repo) -> None:
 
     # ---- R2 Gram–Schmidt structure ------------------------------------------------------------------------------
     pmod, gs = repo.func(f"{PM}:ProbeConstraints._probe_orthogonalization_constraint")
-    proj = [d for d in definitions(gs, "projection") if isinstance(d, ast.AST)]
-    ok = len(proj) == 1 and unparse(proj[0]) == "torch.sum(orthogonal_probes[j].conj() * probe_i) * orthogonal_probes[j]"
-    check.decide(ok, "C10-R2", "Gram–Schmidt: projection = ⟨basis_j, v⟩·basis_j with the conjugate on the BASIS vector", unparse(proj[0]) if proj else "", pmod.line(gs),
-                 fail_detail=f"projection = `{unparse(proj[0]) if proj else '?'}`: the inner product is not ⟨basis_j, probe_i⟩ times the same basis vector, so modes are not "
-                             f"mutually orthogonal for complex probes")
-    upd = [unparse(d) for d in definitions(gs, "probe_i") if isinstance(d, ast.AST)]
-    check.decide(sorted(upd) == sorted(["start_probe[i]", "probe_i - projection"]), "C10-R2", "Gram–Schmidt: projections are subtracted from the running vector (modified GS)", str(upd), pmod.line(gs),
-                 fail_detail=f"probe_i updates: {upd}")
-    inner = next((n for n in ast.walk(gs) if isinstance(n, ast.For) and unparse(n.iter) == "range(len(orthogonal_probes))"), None)
-    check.decide(inner is not None, "C10-R2", "Gram–Schmidt: each vector is orthogonalised against ALL previously accepted modes", "", pmod.line(gs),
-                 fail_detail="the inner loop does not run over range(len(orthogonal_probes))")
-    nm = [d for d in definitions(gs, "norm") if isinstance(d, ast.AST)]
-    ok = len(nm) == 1 and unparse(nm[0]).startswith("torch.sqrt(torch.sum(probe_i.real.square() + probe_i.imag.square()))")
-    app = [c for c in calls_in(gs) if (call_name(c) or "") == "orthogonal_probes.append"]
-    ok = ok and len(app) == 1 and unparse(app[0].args[0]) == "probe_i / norm"
-    check.decide(ok, "C10-R2", "Gram–Schmidt: the residual is normalised by its own norm before it joins the basis", "", pmod.line(gs),
-                 fail_detail="the accepted mode is not probe_i / ‖probe_i‖")
-    on = [d for d in definitions(gs, "original_norms") if isinstance(d, ast.AST)]
-    ok_norms = len(on) == 1 and "start_probe.real.square() + start_probe.imag.square()" in unparse(on[0]) and "dim=(-2, -1)" in unparse(on[0])
-    # order of operations on the stacked modes: stack → × original norms → intensities → argsort(descending) → gather
-    seq = []
-    for st in gs.body:
-        if isinstance(st, ast.Assign):
-            t, v = unparse(st.targets[0]), unparse(st.value)
-            if v == "torch.stack(orthogonal_probes)":
-                seq.append("stack")
-            elif "original_norms" in v and t != "original_norms":
-                seq.append(f"restore:{t}={v}")
-            elif t == "intensities":
-                seq.append(f"intensities:{v}")
-            elif "argsort" in v:
-                seq.append(f"order:{v}")
-            elif "[intensities_order]" in v:
-                seq.append(f"gather:{v}")
-    want = ["stack", "restore:orthogonal_probes=orthogonal_probes * original_norms.view(-1, 1, 1)",
-            "intensities:torch.sum(torch.abs(orthogonal_probes).square(), dim=(-2, -1))",
-            "order:torch.argsort(intensities, descending=True)",
-            "gather:orthogonal_probes.real[intensities_order]", "gather:orthogonal_probes.imag[intensities_order]"]
-    check.decide(ok_norms and seq == want, "C10-R2",
-                 "Gram–Schmidt: the original norm of the SAME index is restored before sorting, the sort key is the restored intensity (descending), "
-                 "and real/imaginary parts are gathered with one order tensor", "", pmod.line(gs),
-                 fail_detail=f"sequence is {seq}; expected {want}: restoring the norms after the sort (or sorting by another key) pairs mode shapes with the "
-                             f"wrong intensities — the multiset survives but the order / per-mode intensity does not")
-    rets = [unparse(n.value) for n in ast.walk(gs) if isinstance(n, ast.Return)]
-    srt = [unparse(d) for d in definitions(gs, "orthogonal_probes_sorted") if isinstance(d, ast.AST)]
-    check.decide(rets == ["orthogonal_probes_sorted"] and srt == ["torch.complex(real_sorted, imag_sorted)"], "C10-R2", "Gram–Schmidt returns the sorted complex stack", "", pmod.line(gs),
-                 fail_detail=f"returns {rets} = {srt}")
+    g = GramSchmidt(gs)  # role-based: basis list, running vector, norms and order tensors are found by definition, not by name
+    titles = {
+        "outer": ("Gram–Schmidt: the outer loop visits every mode of the input stack", "the outer loop does not run over all modes"),
+        "projection": ("Gram–Schmidt: projection = ⟨basis_j, v⟩·basis_j with the conjugate on the BASIS vector",
+                       "the inner product is not ⟨basis_j, v⟩ times the same basis vector, so modes are not mutually orthogonal for complex probes"),
+        "subtract": ("Gram–Schmidt: projections are subtracted from the running vector (modified GS)", "the running vector is not updated as v − projection"),
+        "all_previous": ("Gram–Schmidt: each vector is orthogonalised against ALL previously accepted modes", "the inner loop does not run over range(len(basis))"),
+        "normalise": ("Gram–Schmidt: the residual is normalised by its own norm before it joins the basis", "the accepted mode is not v / ‖v‖"),
+        "norms": ("Gram–Schmidt: the original per-mode norms are taken from the input stack over the last two axes", "no sqrt(Σ|input|², dim=(-2,-1)) is kept"),
+        "aligned": ("Gram–Schmidt: the original norm of the SAME index is restored (norms and stack are in one index order when multiplied)",
+                    "restoring the norms after the sort pairs mode shapes with the wrong intensities — the multiset survives but the per-mode intensity does not"),
+        "restored": ("Gram–Schmidt: the returned stack carries the restored norms", "the per-mode intensities of the input are lost"),
+        "sorted": ("Gram–Schmidt returns the stack gathered by the sort order", "the result is not sorted"),
+        "key": ("Gram–Schmidt: the sort key is the restored per-mode intensity (or the original norms), descending",
+                "sorting by another key (or ascending) leaves the modes out of descending-intensity order"),
+        "one_order": ("Gram–Schmidt: real and imaginary parts are gathered from one stack with one order tensor", "the recombined stack mixes different modes"),
+    }
+    for k, (ok, detail, node) in g.facts.items():
+        title, fail = titles[k]
+        check.decide(ok, "C10-R2", title, detail, pmod.line(node), fail_detail=f"{detail}: {fail}")
+    check.floor("Gram–Schmidt facts", len(g.facts), 11)
 
     # ---- R3 probe normalisation algebra -----------------------------------------------------------------------------
     _, aw = repo.func(f"{PM}:ProbePixelated._apply_weights")
